@@ -1,8 +1,8 @@
 #!/usr/bin/env python3
-"""results_md.py <sweep log of tools/run_seeded.sh>  ->  seeded/RESULTS.md"""
+"""results_md.py <sweep log(s) of tools/run_seeded.sh / run_seeded_lanes.sh>  ->  seeded/RESULTS.md  (later logs override earlier ones)"""
 import sys, re, json, os
-rows = []
-for line in open(sys.argv[1]):
+rows_d = {}
+for line in (l for f in sys.argv[1:] for l in open(f)):
     m = re.match(r'^(C\d+-\d+) prop=(C\d+) rc=(\d+) violations=(\d+) wall=(\d+)s :: (.*)$', line.strip())
     if not m: continue
     seed, prop, rc, nv, wall, rest = m.groups()
@@ -15,7 +15,9 @@ for line in open(sys.argv[1]):
         first = next((l for l in ls if l.startswith('violated:')), None) or next((l for l in ls if l.startswith('inconclusive:')), '')
         first = first[:230]
     verdict = {'1': 'VIOLATION (natively reproduced)', '2': 'inconclusive (exit 2, not reported as held)', '0': 'MISSED'}[rc]
-    rows.append((seed, prop, verdict, wall, (meta.get('summary') or '')[:160].replace('|', '/').replace('\n', ' '), first.replace('|', '/')))
+    rows_d[seed] = ((seed, prop, verdict, wall, (meta.get('summary') or '')[:160].replace('|', '/').replace('\n', ' '), first.replace('|', '/')))
+import re as _re
+rows = [rows_d[k] for k in sorted(rows_d, key=lambda x: (x.split('-')[0], int(x.split('-')[1])))]
 with open('/verif/seeded/RESULTS.md', 'w') as f:
     f.write('# Seeded changes: outcome of the registered quick check of the seed\'s property\n\n')
     f.write('Produced by `tools/run_seeded.sh` (apply patch to /repo, `./check <prop> --tier quick`, undo) and `tools/results_md.py`.\n')
